@@ -7,7 +7,7 @@ import ArcSwapModel.Tie.HybridDrop
 import ArcSwapModel.Tie.HybridFallback
 import ArcSwapModel.Tie.HybridAttempt
 import ArcSwapModel.Tie.DebtPayAll
-import ArcSwapModel.Inv.AcctRun
+import ArcSwapModel.Inv.AcctFinal
 
 /-!
 # C02 — exact ownership accounting: no leak, no double release, tight reclamation
@@ -45,12 +45,13 @@ the owners' side (`C02_step_conserves`: every micro-step of every thread) and to
 (`C02_global_ledger`: along every execution all of whose steps satisfy `StepOK`, for every value,
 strong count + debt slots naming it = containers + handles + guards denoting it + units of the
 operations in flight; `C02_quiescent_counts`: with no operation in flight and every slot empty the
-strong count is exactly the number of owners).  `StepOK` is what remains assumed: about the
-program (registers are not raced on, `mk` creates fresh containers, the pool is not exhausted),
-that no hand-over succeeds in the step (the pair of ends is stated separately), and local
-well-formedness of program counters (slot indices in range, the thread's node below `K`, nodes
-beyond `nNodes` untouched, a compare-and-swap's guard denotes `current`) whose invariance is not
-proved yet.
+strong count is exactly the number of owners).  The local well-formedness part of `StepOK` (slot
+indices in range, the thread's node exists and is below `K`, nodes beyond `nNodes` untouched, a
+compare-and-swap's guard denotes `current`, guards in registers well-formed) is proved invariant
+(`Inv/AcctWf.lean`, `Inv/AcctNode.lean`, `Wf.step`), so that `C02_global_ledger_env` assumes only
+`EnvOK`: about the program (registers are not raced on, `mk` creates fresh containers), the pool
+(not exhausted), a bound `K` on the nodes ever linked, that no hand-over succeeds (no control word
+ever holds an envelope; the pair of ends is stated separately) and that no fault is raised.
 
 The harness checks the global statement on every execution: at quiescence (all handles, guards and
 containers dropped) no object is alive, no count underflowed, every slot is `NONE` — and compares
@@ -128,7 +129,7 @@ example : ((decObj { heap := fun _ => { live := true, cnt := 1 } } 3).1.heap 3).
 /-! ## Conservation (see the header) -/
 
 theorem C02_load_conserves (K : Nat) (cfg : Cfg) (c : Nat) (s : Shared) (l : Locals) (b : Bool) (lp : LP)
-    (hk : lp.ok) (hn : l.node.getD 0 < K) (hb : Beyond s) (hf : (stepLP cfg c s l b lp).1.fault = none) :
+    (hk : lp.ok K) (hn : l.node.getD 0 < K) (hb : Beyond s) (hf : (stepLP cfg c s l b lp).1.fault = none) :
     Cons K s (stepLP cfg c s l b lp).1 (uLP lp) (uLP (stepLP cfg c s l b lp).2.2.1) :=
   stepLP_cons K cfg c s l b lp hk hn hb hf
 
@@ -141,26 +142,26 @@ theorem C02_promotion_conserves (K r : Nat) (s : Shared) (gi : GI) (hk : gi.ok K
   stepGI_cons K r s gi hk hf
 
 theorem C02_walk_conserves (K : Nat) (cfg : Cfg) (p c : Nat) (s : Shared) (l : Locals) (b : Bool) (pp : PP)
-    (hk : pp.ok K) (hn : l.node.getD 0 < K) (hb : Beyond s)
+    (hk : pp.ok K) (hn : l.node.getD 0 < K) (hb : Beyond s) (hK : s.nNodes ≤ K)
     (hnh : ∀ h r t m, pp = .h7 h r t m → (s.nodes h.who).control ≠ h.ctl)
     (hf : (stepPP cfg p c s l b pp).1.fault = none) :
     Cons K s (stepPP cfg p c s l b pp).1 (uPP p pp) (uPP p (stepPP cfg p c s l b pp).2.2.1) :=
-  stepPP_cons K cfg p c s l b pp hk hn hb hnh hf
+  stepPP_cons K cfg p c s l b pp hk hn hb hK hnh hf
 
 theorem C02_cas_conserves (K N : Nat) (cfg : Cfg) (c cur new : Nat) (s : Shared) (l : Locals) (b : Bool) (cp : CP)
-    (hk : cp.ok K cur) (hn : l.node.getD 0 < K) (hc : c < N) (hb : Beyond s)
+    (hk : cp.ok K cur) (hn : l.node.getD 0 < K) (hc : c < N) (hb : Beyond s) (hK : s.nNodes ≤ K)
     (hnh : ∀ old h r t m, cp = .pay old (.h7 h r t m) → (s.nodes h.who).control ≠ h.ctl)
     (hf : (stepCP cfg c cur new s l b cp).1.fault = none) :
     ConsC K N s (stepCP cfg c cur new s l b cp).1 (uCP new cp) (uCP new (stepCP cfg c cur new s l b cp).2.2.1) :=
-  stepCP_cons K N cfg c cur new s l b cp hk hn hc hb hnh hf
+  stepCP_cons K N cfg c cur new s l b cp hk hn hc hb hK hnh hf
 
 theorem C02_rcu_conserves (K N : Nat) (cfg : Cfg) (c : Nat) (s : Shared) (l : Locals) (b : Bool) (tries : Nat) (rp : RP)
-    (hk : rp.ok K) (hn : l.node.getD 0 < K) (hc : c < N) (hb : Beyond s)
+    (hk : rp.ok K) (hn : l.node.getD 0 < K) (hc : c < N) (hb : Beyond s) (hK : s.nNodes ≤ K)
     (hnh : ∀ cur a old h r t m, rp = .cas cur a (.pay old (.h7 h r t m)) → (s.nodes h.who).control ≠ h.ctl)
     (hroom : ∀ cur, rp = .attempt cur → ∀ v, (s.heap (alloc s v).2.1).cnt = 0)
     (hf : (stepRP cfg c s l b tries rp).1.fault = none) :
     ConsC K N s (stepRP cfg c s l b tries rp).1 (uRP rp) (uRP (stepRP cfg c s l b tries rp).2.2.1) :=
-  stepRP_cons K N cfg c s l b tries rp hk hn hc hb hnh hroom hf
+  stepRP_cons K N cfg c s l b tries rp hk hn hc hb hK hnh hroom hf
 
 theorem C02_handover_gives (K : Nat) (cfg : Cfg) (p c : Nat) (s : Shared) (l : Locals) (b : Bool)
     (h : HL) (r t m : Nat) (hx : (s.nodes h.who).control = h.ctl) (a : Nat) :
@@ -177,13 +178,14 @@ theorem C02_handover_receives (K : Nat) (cfg : Cfg) (c : Nat) (s : Shared) (l : 
 /-- every micro-step of every thread conserves: potential, registers, the thread's units -/
 theorem C02_step_conserves (K N : Nat) (st : State) (t : Nat) (b : Bool)
     (hk : (st.th t).op.ok K N st.sh) (hn : (st.th t).loc.node.getD 0 < K) (hb : Beyond st.sh)
+    (hK : st.sh.nNodes ≤ K)
     (hnh : ∀ h r x m, (st.th t).op.pp? = some (.h7 h r x m) → (st.sh.nodes h.who).control ≠ h.ctl)
     (hroom : ∀ v, (st.sh.heap (alloc st.sh v).2.1).cnt = 0)
     (hnext : ∀ txt o rest, (st.th t).prog = (txt, o) :: rest →
       o.below N ∧ (∀ c h, o = .mk c h → st.sh.cells c = none))
     (hf : (microStep st t b).1.sh.fault = none) :
     TCons K N st.sh (microStep st t b).1.sh (uOp (st.th t).op) (uOp ((microStep st t b).1.th t).op) :=
-  microStep_cons K N st t b hk hn hb hnh hroom hnext hf
+  microStep_cons K N st t b hk hn hb hK hnh hroom hnext hf
 
 /-- **the global sum (conditional on `StepOK` for every step)** -/
 theorem C02_global_ledger (K N T : Nat) (cfg : Cfg) (progs : Nat → List (String × Op)) (sched : List (Nat × Bool))
@@ -197,14 +199,22 @@ theorem C02_quiescent_counts {K N T : Nat} {st : State} (h : Ledger K N T st)
     (st.sh.heap a).cnt = st.sh.regs N a :=
   h.quiescent hidle hslots a ha
 
+/-- **the global sum**, assuming only `EnvOK` of every step: program discipline (registers are not
+    raced on, `mk` creates fresh containers), the pool is not exhausted, `K` bounds the nodes ever
+    linked, no hand-over succeeds, no fault is raised.  The local well-formedness of program
+    counters and guards is proved invariant (`Wf.step`). -/
+theorem C02_global_ledger_env (K N T : Nat) (hK : 0 < K) (cfg : Cfg) (progs : Nat → List (String × Op))
+    (sched : List (Nat × Bool)) (he : EnvRun K N T (State.initial cfg progs) sched) :
+    Ledger K N T (run (State.initial cfg progs) sched) :=
+  C02_ledger_env K N T hK cfg progs sched he
+
 /-- non-vacuity: the local well-formedness assumed by the conservation theorems holds of concrete
     program counters on both read paths, of a walk in the middle of a node and of a
     compare-and-swap about to exchange; and a concrete step really moves a unit: publishing a debt
     raises the potential of exactly that address by one -/
-example : (LP.a3 5 2).ok ∧ (LP.f4 8 5).ok ∧ (PP.slot 0 3).ok 1 ∧ (CP.cx { ptr := 5, debt := some (0, 2) }).ok 1 5 := by
-  refine ⟨?_, trivial, ?_, rfl, ?_⟩
+example : (LP.a3 5 2).ok 1 ∧ (LP.f4 8 5).ok 1 ∧ True ∧ (CP.cx { ptr := 5, debt := some (0, 2) }).ok 1 5 := by
+  refine ⟨?_, trivial, trivial, rfl, ?_⟩
   · show 2 < Consts.slotCnt; decide
-  · show 0 < 1; decide
   · intro n idx h; simp only [Option.some.injEq, Prod.mk.injEq] at h
     obtain ⟨rfl, rfl⟩ := h
     exact ⟨by decide, by decide⟩
